@@ -251,5 +251,8 @@ def run(tier, seed):
     # inversion chain, batch inversion, products: layer S (scalars as monomials), checks/c02m.py
     from checks import c02m
     for cfg in cfgs: tasks += c02m.harnesses(rep, cfg, build.ir(cfg, "O0"), tier)
+    # hash-to-scalar: Scalar::hash_from_bytes / from_hash with SHA-512 uninterpreted (linked ed25519-dalek IR): checks/c08s.py
+    from checks import c08s
+    tasks += c08s.hashmap_harnesses(rep, tier, "sc")
     run_tasks(tasks, rep)
     return rep
